@@ -27,6 +27,8 @@ type event struct {
 
 type lineariser struct {
 	f        *Func
+	la       *LockAnalysis                   // when set, literals/function values in synchronous argument positions are expanded in place
+	argRole  func(e ast.Expr) string         // names a function value handed to a synchronous position ("" = ignore)
 	roleOf   func(call *ast.CallExpr) string // extra call classification ("" = default)
 	events   []event
 	undecided []string
@@ -70,11 +72,25 @@ func (l *lineariser) exprEvents(n ast.Node, cond, deferred, loop bool) {
 			add("send:"+chanName(info, t.Chan), t)
 			return
 		case *ast.CallExpr:
-			for _, a := range t.Args {
-				walk(a)
-			}
 			if se, ok := ast.Unparen(t.Fun).(*ast.SelectorExpr); ok {
 				walk(se.X)
+			}
+			for i, a := range t.Args {
+				if l.la != nil && l.la.isSyncPosition(info, t, i) {
+					if lit, ok := ast.Unparen(a).(*ast.FuncLit); ok {
+						sub := &lineariser{f: l.f.Prog.byLit[lit], la: l.la, argRole: l.argRole, roleOf: l.roleOf}
+						sub.block(lit.Body.List, cond, deferred, loop)
+						l.events = append(l.events, sub.events...)
+						continue
+					}
+					if l.argRole != nil {
+						if r := l.argRole(a); r != "" {
+							add(r, a)
+							continue
+						}
+					}
+				}
+				walk(a)
 			}
 			if isBuiltinCall(info, t, "close") && len(t.Args) == 1 {
 				add("close:"+chanName(info, t.Args[0]), t)
@@ -155,7 +171,7 @@ func (l *lineariser) block(list []ast.Stmt, cond, deferred_, loop bool) {
 	for i := len(defers) - 1; i >= 0; i-- {
 		d := defers[i]
 		if lit, ok := ast.Unparen(d.stmt.Call.Fun).(*ast.FuncLit); ok {
-			sub := &lineariser{f: l.f.Prog.byLit[lit], roleOf: l.roleOf}
+			sub := &lineariser{f: l.f.Prog.byLit[lit], la: l.la, argRole: l.argRole, roleOf: l.roleOf}
 			sub.block(lit.Body.List, d.cond || cond, true, loop)
 			l.events = append(l.events, sub.events...)
 			l.undecided = append(l.undecided, sub.undecided...)
@@ -233,6 +249,14 @@ func (l *lineariser) stmts(list []ast.Stmt, cond, deferred_, loop bool, defers *
 			l.exprEvents(s, cond, deferred_, loop)
 		}
 	}
+}
+
+// lineariseSync is linearise with synchronous literal/function-value
+// arguments expanded in place.
+func lineariseSync(f *Func, la *LockAnalysis, roleOf func(*ast.CallExpr) string, argRole func(ast.Expr) string) []event {
+	l := &lineariser{f: f, la: la, roleOf: roleOf, argRole: argRole}
+	l.block(f.Body.List, false, false, false)
+	return l.events
 }
 
 // linearise returns the events of f's body in execution order.
